@@ -439,6 +439,15 @@ bool TMCG_OpenPGP_Signature::CheckIntegrity
 	 const tmcg_openpgp_octets_t &hash,
 	 const int verbose) const
 {
+	if (hash.size() < 2)
+	{
+		if (verbose)
+		{
+			std::cerr << "ERROR: no hash value available (unsupported " <<
+				"hash algorithm or empty input)" << std::endl;
+		}
+		return false;
+	}
 	if ((left.size() == 2) &&
 		((left[0] != hash[0]) || (left[1] != hash[1])))
 	{
@@ -639,7 +648,7 @@ bool TMCG_OpenPGP_Signature::VerifyData
 			std::cerr << "ERROR: signature version not supported" << std::endl;
 		return false;
 	}
-	if (verbose > 2)
+	if ((verbose > 2) && (left.size() == 2))
 	{
 		std::cerr << "INFO: left = " << std::hex << (int)left[0] <<
 			" " << (int)left[1] << std::endl << "INFO: hash = ";
@@ -819,7 +828,7 @@ bool TMCG_OpenPGP_Signature::VerifyData
 			std::cerr << "ERROR: signature version not supported" << std::endl;
 		return false;
 	}
-	if (verbose > 2)
+	if ((verbose > 2) && (left.size() == 2))
 	{
 		std::cerr << "INFO: left = " << std::hex << (int)left[0] <<
 			" " << (int)left[1] << std::endl << "INFO: hash = ";
@@ -964,7 +973,7 @@ bool TMCG_OpenPGP_Signature::Verify
 			std::cerr << "ERROR: signature version not supported" << std::endl;
 		return false;
 	}
-	if (verbose > 2)
+	if ((verbose > 2) && (left.size() == 2))
 	{
 		std::cerr << "INFO: left = " << std::hex << (int)left[0] <<
 			" " << (int)left[1] << std::endl << "INFO: hash = ";
@@ -1037,7 +1046,7 @@ bool TMCG_OpenPGP_Signature::Verify
 		}
 		return false;
 	}
-	if (verbose > 2)
+	if ((verbose > 2) && (left.size() == 2))
 	{
 		std::cerr << "INFO: left = " << std::hex << (int)left[0] <<
 			" " << (int)left[1] << std::endl << "INFO: hash = ";
@@ -1111,7 +1120,7 @@ bool TMCG_OpenPGP_Signature::Verify
 		}
 		return false;
 	}
-	if (verbose > 2)
+	if ((verbose > 2) && (left.size() == 2))
 	{
 		std::cerr << "INFO: left = " << std::hex << (int)left[0] <<
 			" " << (int)left[1] << std::endl << "INFO: hash = ";
@@ -1189,7 +1198,7 @@ bool TMCG_OpenPGP_Signature::Verify
 		}
 		return false;
 	}
-	if (verbose > 2)
+	if ((verbose > 2) && (left.size() == 2))
 	{
 		std::cerr << "INFO: left = " << std::hex << (int)left[0] <<
 			" " << (int)left[1] << std::endl << "INFO: hash = ";
@@ -1269,7 +1278,7 @@ bool TMCG_OpenPGP_Signature::Verify
 		}
 		return false;
 	}
-	if (verbose > 2)
+	if ((verbose > 2) && (left.size() == 2))
 	{
 		std::cerr << "INFO: left = " << std::hex << (int)left[0] <<
 			" " << (int)left[1] << std::endl << "INFO: hash = ";
@@ -1340,7 +1349,7 @@ bool TMCG_OpenPGP_Signature::Verify
 		}
 		return false;
 	}
-	if (verbose > 2)
+	if ((verbose > 2) && (left.size() == 2))
 	{
 		std::cerr << "INFO: left = " << std::hex << (int)left[0] <<
 			" " << (int)left[1] << std::endl << "INFO: hash = ";
